@@ -366,7 +366,7 @@ def gen_cfg(rng, idx, scenario=True):
     ids = rng.sample(range(1, 10), ng)
     groups = {ids[0]: now - mi * NS - 1 - rng.choice([0, 0, 1, NS])}
     for g in ids[1:]:
-        groups[g] = now - mi * NS + rng.choice([-NS, -1, 0, 1, NS, -rng.randrange(0, mi * NS + 1), mi * NS // 2])
+        groups[g] = max(-I64_MAX, now - mi * NS + rng.choice([-NS, -1, 0, 1, NS, -rng.randrange(0, mi * NS + 1), mi * NS // 2]))
     now0 = now
     known = dict(groups)
     evs = []
